@@ -158,6 +158,16 @@ CHECKS = {
             "model: blobs shared, views independent.",
             "a process in another working directory passes the absolute form of the same directories",
             "5/C16"),
+    "C18": ("progmc", "exploration",
+            "exhaustive enumeration of composite programs; exported graph parsed back and compared with the graph derived from the spec",
+            "Every composite program (chain / fan / diamond / repeat over <= 4 kept nodes x node styles), programs with the same function under "
+            "two paths, run-time-argument siblings, a shared un-kept helper, three argument-taking calls, and all load placements of C09 are "
+            "evaluated without and with dds_export_graph on fresh stores: result and signatures must be equal, the export must succeed, and "
+            "the parsed graph (graphviz plain format) must be acyclic, contain every kept path and every path loaded by a kept function, "
+            "have exactly the solid edges 'u reaches v's function without crossing another kept function', the dashed edges of the loads, and "
+            "only dotted edges whose head is a keep with parameters.",
+            "weaker reading for dotted edges (style, direction, head has parameters)",
+            "5/C18"),
 }
 
 NOT_YET = {}
